@@ -91,6 +91,11 @@ CHECKS = {
    "Single-worker runs so that process-wide counts are exact: seeded create/drop histories of 1..20 streams (valid and invalid sizes, element sizes dividing and not, creation/drop on other threads) between canary mappings, with one optional fault (1st or 2nd mmap of a creation -> ENOMEM, ftruncate -> ENOSPC, descriptor limit reached). Checks: aliasing through a window spanning the wrap (every offset of a one-page buffer is enumerated), Err not panic, empty mmap/munmap ledger, /proc/self/maps deleted-file mappings and /proc/self/fd back to baseline, canaries intact, a fresh stream still works.",
    "tempfile creation cannot be failed at the libc seam (raw syscalls); address-space exhaustion modelled as ENOMEM at a chosen mmap index.",
    "deterministic simulation: syscall-seam fault injection (mmap/ftruncate/fd limit) over seeded create/drop histories, leak ledger + /proc oracle", "5/C18"),
+
+ "C20": ("graphsim+mtsim", "exploration",
+   "A transmitter model (HDLC framing with CRC, NRZI, Bell-202 AFSK audio at 44100/48000/50000 Hz, or G3RUH scrambling + 2-FSK baseband at 50000/100000 Hz; 1-8 frames of 10-300 bytes incl. stuffing-heavy payloads; 20-100 flag preamble; seeded start phase and sub-sample symbol timing) feeds the receive chains assembled block for block as in examples/ax25-1200-rx.rs and examples/ax25-9600-rx.rs (ZeroCrossing clock recovery). Every transmission runs on Graph under virtual time; a seeded subset also on MTGraph with all block threads under the baton scheduler. Delivered frames must equal transmitted frames on each runner.",
+   "Noiseless channel; trailing silence flushes block filters; sink is a harness packet collector.",
+   "deterministic simulation: seeded transmissions through the real chains on both runners (MTGraph under seeded schedules), frame-identity oracle", "5/C20"),
 }
 PENDING_REASON = "check not built yet in this session (planned in DESIGN.md section 5); not a claim that the property is out of reach"
 
@@ -124,8 +129,8 @@ def main():
             "add_only": True,
         },
         "engines": [
-            {"name": "mtsim", "path": "sim/src/rt.rs, sim/src/mt.rs, sim/src/graphs.rs", "serves_properties": ["C03", "C04", "C05", "C07"], "kind_free_text": "baton scheduler over real OS threads behind the std shim: one seeded decision per lock/unlock/wait/notify/time-out/spawn/join/atomic point; real MTGraph and streams"},
-            {"name": "graphsim", "path": "sim/src/graphsim.rs", "serves_properties": ["C06", "C07"], "kind_free_text": "real Graph::run under virtual time on generated graphs, add-order permutations"},
+            {"name": "mtsim", "path": "sim/src/rt.rs, sim/src/mt.rs, sim/src/graphs.rs", "serves_properties": ["C03", "C04", "C05", "C07", "C20"], "kind_free_text": "baton scheduler over real OS threads behind the std shim: one seeded decision per lock/unlock/wait/notify/time-out/spawn/join/atomic point; real MTGraph and streams"},
+            {"name": "graphsim", "path": "sim/src/graphsim.rs", "serves_properties": ["C06", "C07", "C20"], "kind_free_text": "real Graph::run under virtual time on generated graphs, add-order permutations"},
             {"name": "iosim", "path": "sim/src/sys.rs, sim/src/iosim.rs", "serves_properties": ["C14", "C17", "C18"], "kind_free_text": "syscall seam: read/recv/write/mmap/munmap/ftruncate defined in the binary (link-time interposition), thread-local fault plans; crash runs in a re-exec'd child"},
             {"name": "rig", "path": "sim/src/rig.rs, sim/src/blocks.rs, sim/src/rigcheck.rs", "serves_properties": ["C08", "C09", "C10", "C11", "C12", "C13", "C15", "C16", "C19"], "kind_free_text": "drip-feed environment for one block: harness owns all peers of a real block on real streams; seeded feed/drain/work schedules; virtual time"},
             {"name": "bufsim", "path": "sim/src/bufsim.rs", "serves_properties": ["C01", "C02"], "kind_free_text": "seeded single-thread op-history simulator over Buffer<T> with a deque reference model"},
